@@ -292,6 +292,7 @@ type samGenOpts struct {
 	slashNames    bool
 	fixedRef      string // if set: use this reference (annotation properties)
 	fixedRefName  string
+	hugeEvery     int // if > 0: one case in hugeEvery gets a long reference with operators longer than typical buffer sizes
 }
 
 func genRef(t *rapid.T, minLen, maxLen int, iupac bool) string {
@@ -322,7 +323,13 @@ func genTruth(t *rapid.T, ref string) []byte {
 
 var coreOps = []string{"M", "M", "M", "M", "M", "=", "X", "I", "I", "D", "D", "N", "P"}
 
+// hugeMode is set by genSamInput for the duration of one generated case (single-threaded generator).
+var hugeMode bool
+
 func genLen(t *rapid.T, label string) int {
+	if hugeMode && rapid.IntRange(0, 3).Draw(t, label+"Huge") == 0 {
+		return rapid.SampledFrom([]int{255, 256, 257, 300, 513, 1025, 4095, 4096, 4097, 4100, 4500, 8193}).Draw(t, label+"HugeLen")
+	}
 	if rapid.IntRange(0, 14).Draw(t, label+"Long") == 0 {
 		return rapid.IntRange(7, 20).Draw(t, label)
 	}
@@ -542,11 +549,18 @@ func genNoiseRecord(t *rapid.T, name string, ref string) SamRec {
 
 func genSamInput(t *rapid.T, o samGenOpts) SamInput {
 	in := SamInput{RefName: rapid.SampledFrom([]string{"ref", "MN908947.3", "chr1"}).Draw(t, "refName")}
+	huge := o.hugeEvery > 0 && o.fixedRef == "" && rapid.IntRange(0, o.hugeEvery-1).Draw(t, "hugeCase") == 0
 	if o.fixedRef != "" {
 		in.Ref, in.RefName = o.fixedRef, o.fixedRefName
+	} else if huge {
+		// a reference longer than 4096 / 8192 so that single operators can exceed typical buffer sizes
+		n := rapid.SampledFrom([]int{600, 1100, 4200, 5000, 8300, 9000}).Draw(t, "hugeRefLen")
+		unit := genACGT(t, 97, "hugeRefUnit") // aperiodic enough: 97 is prime and the unit is random
+		in.Ref = strings.Repeat(unit, n/97+1)[:n]
 	} else {
 		in.Ref = genRef(t, 6, o.maxRef, o.iupacRef)
 	}
+	hugeMode = huge
 	nq := rapid.IntRange(1, o.maxQueries).Draw(t, "nQueries")
 	var names []string
 	for qi := 0; qi < nq; qi++ {
@@ -609,6 +623,10 @@ func labelSam(in SamInput, o *Obs) {
 		for i := 1; i < len(core); i++ {
 			a, b := core[i-1].Op, core[i].Op
 			o.LabelIf((a == "I" && b == "D") || (a == "D" && b == "I"), "adjacent-I/D")
+		}
+		for _, op := range r.Ops {
+			o.LabelIf(op.Len > 4096, "operator-longer-than-4096")
+			o.LabelIf(op.Len > 256, "operator-longer-than-256")
 		}
 		o.LabelIf(r.Pos == 1, "pos=1")
 		o.LabelIf(r.Pos-1+refSpan(r.Ops) == L, "ends-at-L")
